@@ -499,7 +499,17 @@ func (p *Program) allDefsAre(x ast.Expr, ok func(ast.Expr) bool) bool {
 				if objOf(p.Info, l) != o {
 					continue
 				}
-				if len(s.Lhs) != len(s.Rhs) || !ok(ast.Unparen(s.Rhs[i])) {
+				switch {
+				case len(s.Lhs) == len(s.Rhs):
+					if !ok(ast.Unparen(s.Rhs[i])) {
+						good = false
+					}
+				case len(s.Rhs) == 1 && i == 0:
+					// v, err := f(...): the predicate is asked about the call (its first result)
+					if _, isCall := ast.Unparen(s.Rhs[0]).(*ast.CallExpr); !isCall || !ok(ast.Unparen(s.Rhs[0])) {
+						good = false
+					}
+				default:
 					good = false
 				}
 				n++
